@@ -1,3 +1,4 @@
+import Mp.ProofsStr2
 import Mp.ProofsStr
 import Mp.ProofsRepl
 /-! C18 — string functions mean what their names say: property theorems (proved in Mp.ProofsStr). -/
@@ -19,3 +20,8 @@ import Mp.ProofsRepl
 #print axioms Mp.replaceAll_pieces
 #print axioms Mp.replaceAll_func
 #print axioms Mp.replaceAll_empty_search
+#print axioms Mp.stringPart_of
+#print axioms Mp.left_take_scaled
+#print axioms Mp.right_drop_scaled
+#print axioms Mp.trimLeft_scaled
+#print axioms Mp.trimRight_scaled
